@@ -55,10 +55,30 @@ def run(prog, rep, tier):
         rep.items.append(it)
         rep.counts["R4.1"] = rep.counts.get("R4.1", 0) + 1
     shared.dtype_narrowing(prog, rep, "R4.7")
+    r4_8(prog, rep)
     rep.floor("R4.1", 6)
     rep.floor("R4.2", 12)
     rep.floor("R4.3", 5)
     rep.floor("R4.4", 4)
+    rep.floor("R4.8", 4)
+
+
+def r4_8(prog, rep):
+    """a v[l] column of a design evaluated on new data: row k of the remembered coding for level k, zero for an unseen level
+    (the per-case model of C10's R10.3, here for the label clause)"""
+    want = {"-1": ("zero",), "0": ("row", 0), "+": ("row", "c")}
+    for q in ("terms.variable.Variable.eval_new_data_categoric", "terms.call.Call.eval_new_data_categoric"):
+        f = prog.fn(q)
+        S = shared.categoric_summary(prog, f)
+        table, fresh, why = shared.zeroing_model(f, S)
+        obl(rep, f, f.node, "R4.8", table == want and fresh,
+            "new data: a row whose value is level k gets row k of the remembered coding (cases code=-1 / 0 / >0)", str(table),
+            f"the rows returned for codes -1 / 0 / >0 are {table}, expected {want} ({why}): a column labelled v[l] is not 1 exactly where v equals l")
+        fast = S["fast"]
+        rets = [n for n in (fast.body if fast is not None else []) if isinstance(n, ast.Return)]
+        ok = len(rets) == 1 and isinstance(rets[0].value, ast.Subscript) and unparse(rets[0].value.value) == "self.contrast_matrix.matrix" \
+            and S["facts"]["matrix_indices_from_remembered_levels"]
+        obl(rep, f, fast or f.node, "R4.8", ok, "new data without unseen levels: the rows of the remembered coding, indexed by the codes of the remembered levels")
 
 
 def r4_1(prog, rep):
@@ -66,6 +86,10 @@ def r4_1(prog, rep):
     major, why = O.pairwise_major(gim)
     obl(rep, gim, gim.node, "R4.1", major == 0, "get_interaction_matrix(x, y): the first operand's column index is major (varies slowest)", why,
         f"get_interaction_matrix is not first-operand-major: {why}")
+    kind, etxt = getattr(gim, "_pairwise_element", ("product", "matrix product form"))
+    obl(rep, gim, gim.node, "R4.1", kind == "product", "a column of a:b is the plain element-wise product of one column of a and one of b", etxt,
+        f"the stacked element is `{etxt}`: the product is post-processed by a data-dependent selection, so the column is not the "
+        "element-wise product its label denotes (NaN / inf / signed zeros of a factor are replaced)")
     sites = []
     for q in ("terms.terms.Term.set_data", "terms.terms.Term.eval_new_data"):
         f = prog.fn(q)
